@@ -7,11 +7,11 @@ CFG = {
     "stages": ["go:gen", "go:impl", "lean:judge"],
     "theorems": [T + n for n in [
         # the property
-        "C04_len", "C04_points", "C04_points_prefix", "C04_bounds", "C04_bounds_empty_iff",
-        "C04_extend_join", "C04_extend_laws", "C04_extend_empty",
+        "C04_len", "C04_points", "C04_points_prefix", "C04_bounds", "C04_bounds_partial", "C04_bounds_empty_iff",
+        "C04_extend_join", "C04_extend_canon", "C04_extend_laws", "C04_extend_laws_sets", "C04_extend_empty",
         "C04_overlaps", "C04_intersection", "C04_copy", "C04_empty",
         # the hypotheses are needed (witnesses)
-        "C04_overlaps_emptybox_counterexample", "C04_bounds_emptybox_counterexample",
+        "C04_bounds_emptybox_counterexample",
         # the judge's decidable checks are the semantic specification
         "C04_spec_envelope", "C04_spec_join", "C04_spec_sharePoint", "C04_spec_intersection", "C04_spec_empty",
         # the executed coordinate type is an instance of the theorems
@@ -29,9 +29,9 @@ CFG = {
     "assumptions": [
         "no NaN coordinates (outside the property's quantifier; NaN lines would be skipped)",
         "no nil interface value inside a GeometryCollection (nil is not one of the eight types; model and code both fault there, checked as correspondence only)",
-        "C04_overlaps: both boxes have a point (witness that it fails otherwise: C04_overlaps_emptybox_counterexample); "
-        "C04_extend_join/laws: the receiver is canonical (has a point or is NewBounds()) - the argument may be any box; "
-        "C04_bounds: a *Bounds used as a geometry has a point (Len() is the constant 4; witness: C04_bounds_emptybox_counterexample)",
+        "C04_overlaps, C04_intersection, C04_extend_join, C04_extend_laws_sets hold for ALL boxes (empty, inverted, infinite); "
+        "C04_extend_laws (equations between boxes rather than point sets) for canonical boxes (has a point, or is NewBounds()); "
+        "C04_bounds: a *Bounds used as a geometry has a point (Len() is the constant 4; witness: C04_bounds_emptybox_counterexample; known finding)",
         "behaviour of an iterator after more than Len() calls is unspecified and not examined",
     ],
     "rule": "grammar-generated geometries of all eight types with an explicit empty-member production at every level (runs of 1-4 "
